@@ -221,6 +221,61 @@ def build() -> Check:
 
     # R3 decision vs classifier ---------------------------------------------------------------------
     counters = models.classes["ExecutionCounters"]
+    # R3 the thresholds the decision works with are the configured ones: where the counters are built, each parameter receives the quantity of its own name -
+    # the number of inputs as the total, `completion_config.<name>` (or a local bound from it) for the three thresholds - and each stores it in the field the
+    # decision reads (mutscan 4: the first two arguments exchanged - with the default policy both equal the number of inputs and nothing differs; with
+    # min_successful=1 of 3 the call waits for three successes among one task)
+    ci_init = counters.methods.get("__init__")
+    if ci_init is None:
+        raise AnalysisError("ExecutionCounters.__init__ not found")
+    cparams = [a.arg for a in ci_init.node.args.args[1:]]
+    stores = {}
+    for st_ in ast.walk(ci_init.node):
+        if isinstance(st_, (ast.Assign, ast.AnnAssign)):
+            tg_ = st_.targets[0] if isinstance(st_, ast.Assign) else st_.target
+            if isinstance(tg_, ast.Attribute) and isinstance(tg_.value, ast.Name) and tg_.value.id == "self" and isinstance(st_.value, ast.Name) and st_.value.id in cparams:
+                stores[tg_.attr] = st_.value.id
+    crossed = [f"self.{a_} = {p_}" for a_, p_ in stores.items() if a_ in cparams and a_ != p_]
+    ck.ob("R3.counters-receive-the-configured-thresholds", fn_construct(ci_init), not crossed and set(cparams) <= set(stores),
+          (f"{crossed[0]}: the field the decision reads holds another parameter" if crossed else f"parameters never stored: {sorted(set(cparams) - set(stores))}"), cell="stores")
+    n_cc = 0
+    for fi_ in [f for c_ in prog.classes.values() for f in c_.methods.values() if f.cls is c_]:
+        for call_ in [c for c in ast.walk(fi_.node) if isinstance(c, ast.Call) and isinstance(c.func, ast.Name) and c.func.id == "ExecutionCounters"]:
+            n_cc += 1
+            bound = dict(zip(cparams, call_.args))
+            bound.update({k.arg: k.value for k in call_.keywords if k.arg})
+            local_defs = {}
+            for st_ in ast.walk(fi_.node):
+                if isinstance(st_, (ast.Assign, ast.AnnAssign)):
+                    tg_ = st_.targets[0] if isinstance(st_, ast.Assign) else st_.target
+                    if isinstance(tg_, ast.Name) and st_.value is not None:
+                        local_defs.setdefault(tg_.id, []).append(st_.value)
+
+            def sources(e_, depth=0):
+                out_ = set()
+                for x in ast.walk(e_):
+                    if isinstance(x, ast.Attribute) and "completion_config" in ast.unparse(x.value):
+                        out_.add(x.attr)
+                    if isinstance(x, ast.Name) and x.id in local_defs and depth < 3:
+                        for d_ in local_defs[x.id]:
+                            out_ |= sources(d_, depth + 1)
+                return out_
+            wrongb = []
+            for p_ in cparams:
+                e_ = bound.get(p_)
+                if e_ is None:
+                    wrongb.append(f"`{p_}` is not passed")
+                    continue
+                src_ = sources(e_)
+                if p_ == "total_tasks":
+                    is_len = isinstance(e_, ast.Call) and isinstance(e_.func, ast.Name) and e_.func.id == "len" and "executables" in ast.unparse(e_)
+                    if not is_len or src_:
+                        wrongb.append(f"`total_tasks` receives `{ast.unparse(e_)[:50]}` - not the number of inputs")
+                elif p_ not in src_ or (src_ - {p_}):
+                    wrongb.append(f"`{p_}` receives `{ast.unparse(e_)[:50]}`, which comes from {sorted(src_) or 'no configured threshold'}")
+            ck.ob("R3.counters-receive-the-configured-thresholds", fn_construct(fi_), not wrongb,
+                  "; ".join(wrongb[:2]) + ": the completion decision compares the branch counts with the wrong quantity", cell="call")
+    ck.floor("execution_counters_constructions", n_cc, 1)
     sc, ic = counters.methods["should_continue"], counters.methods["is_complete"]
     gr = models.classes["BatchResult"].methods["_get_completion_reason"]
     a_dec = comparisons(sc.node) | comparisons(ic.node)
